@@ -1,4 +1,3 @@
-(* The single place that names the generated C10 inventory (c10_uses, c10_ambient, c10_excluded, c10_file_count).
-   Until tools/translate.py appends tools/translate_c10.generate() to Gen/Generated.v, tools/props/c10.py writes
-   Gen/GeneratedC10.v itself at the start of every run; afterwards change the line below to `Gen.Generated`. *)
-From CA Require Export Gen.GeneratedC10.
+(* The single place that names the generated C10 inventory (c10_uses, c10_ambient, c10_excluded, c10_file_count):
+   tools/translate.py appends tools/translate_c10.generate() to Gen/Generated.v on every run. *)
+From CA Require Export Gen.Generated.
